@@ -7,6 +7,7 @@ import (
 	"os"
 	"path/filepath"
 	"regexp"
+	"runtime"
 	"sort"
 	"strconv"
 	"strings"
@@ -268,11 +269,13 @@ func (w *world) hardHit(site, what, msg string, ms int64) {
 	switch {
 	case w.beyond:
 		w.hit("HardNode.Generate", "clock-beyond-timestamp-width", what+": "+msg+fmt.Sprintf(" [a clock reading or the node's time is at/after the end of the %d-bit timestamp width: `<<` drops the high bits]", w.width()))
-	case w.epoch > unixNanoMaxMs || w.epoch < -unixNanoMaxMs:
-		w.hit("NewNode", "epoch-outside-unixnano-range", what+": "+msg+fmt.Sprintf(" [epoch %d ms is outside the int64-nanosecond range]", w.epoch))
-	case ms > unixNanoMaxMs || ms < -unixNanoMaxMs:
-		w.hit("HardNode.Generate", "clock-outside-unixnano-range", what+": "+msg+fmt.Sprintf(" [clock %d ms is outside the int64-nanosecond range]", ms))
 	default:
+		// (before fix f72a405 hits with an epoch / a clock reading outside the int64-nanosecond range were filed under the
+		// root-cause keys NewNode:epoch-outside-unixnano-range / HardNode.Generate:clock-outside-unixnano-range; with the
+		// UnixMilli conversion in place that region is ordinary and a hit there is reported under its clause)
+		if w.epoch > unixNanoMaxMs || w.epoch < -unixNanoMaxMs || ms > unixNanoMaxMs || ms < -unixNanoMaxMs {
+			msg += " [epoch or clock outside the int64-nanosecond range]"
+		}
 		w.hit(site, what, msg)
 	}
 }
@@ -496,6 +499,10 @@ func (w *world) run(line string) (out string) {
 	switch f[0] {
 	case "gid":
 		return w.gid(f)
+	case "gidpar":
+		return w.gidpar(f)
+	case "hreal":
+		return w.hreal(f)
 	case "hard":
 		if len(f) != 3 {
 			return "bad-op"
@@ -858,6 +865,103 @@ func (w *world) gid(f []string) string {
 		prev = id
 	}
 	return "accepted"
+}
+
+// atLeastProcs makes sure the concurrent real-clock classes really run in parallel (a loaded or restricted host may
+// start the harness with GOMAXPROCS 1–2); the returned function restores the setting.
+func atLeastProcs(n int) func() {
+	old := runtime.GOMAXPROCS(0)
+	if old >= n {
+		return func() {}
+	}
+	runtime.GOMAXPROCS(n)
+	return func() { runtime.GOMAXPROCS(old) }
+}
+
+// gidpar: `gidpar <cur> <g> <k>` — g goroutines × k calls of the public GenID (real clock → GenIDByTS) on a fresh
+// UnixNanoID. With `cur` ahead of the clock every call takes the increment branch, the most contended path.
+// Monitor: merged ids duplicate-free, each goroutine's own sequence strictly increasing, every id above `cur`.
+func (w *world) gidpar(f []string) string {
+	if len(f) != 4 {
+		return "bad-op"
+	}
+	cur, ok1 := pI64(f[1])
+	g, ok2 := pCount(f[2], 64)
+	k, ok3 := pCount(f[3], 100000)
+	if !ok1 || !ok2 || !ok3 {
+		return "bad-op"
+	}
+	if cur > 1<<62 {
+		return "ok" // next to MaxInt64: outside the clause (counter wrap)
+	}
+	defer atLeastProcs(4)()
+	n := nano.NewUnixNanoID(cur)
+	per, ok := parallel(g, k, func() int64 { return n.GenID() })
+	if !ok {
+		return "timeout"
+	}
+	all := mergeSorted(per)
+	what := ""
+	switch {
+	case hasDup(all):
+		what = "a duplicate id was returned"
+	case !perThreadIncreasing(per):
+		what = "one goroutine was handed an id not above the one it had received before"
+	case all[0] <= cur:
+		what = fmt.Sprintf("id %d is not above the start value", all[0])
+	}
+	if what != "" {
+		w.hit("UnixNanoID.GenID", "concurrent-not-increasing", fmt.Sprintf("%d goroutines × %d calls of GenID on NewUnixNanoID(%d): %s", g, k, cur, what))
+	}
+	return "ok"
+}
+
+// hreal: `hreal <node> <g> <k>` — the same for HardNode.Generate under the package's default clock (no hook installed).
+func (w *world) hreal(f []string) string {
+	if len(f) != 4 {
+		return "bad-op"
+	}
+	node, ok1 := pI64(f[1])
+	g, ok2 := pCount(f[2], 64)
+	k, ok3 := pCount(f[3], 100000)
+	if !ok1 || !ok2 || !ok3 {
+		return "bad-op"
+	}
+	n, err := snowflake.NewNode(node, 0)
+	if err != nil {
+		return "err"
+	}
+	defer atLeastProcs(4)()
+	before := time.Now().UnixMilli()
+	per, ok := parallel(g, k, func() int64 { return n.Generate() })
+	if !ok {
+		return "timeout"
+	}
+	rel := before - w.epoch
+	if rel < 0 {
+		return "ok"
+	}
+	saved := w.beyond
+	w.beyond = rel+int64(g*k)/4096+3 >= int64(1)<<w.width()
+	defer func() { w.beyond = saved }()
+	all := mergeSorted(per)
+	what := ""
+	switch {
+	case hasDup(all):
+		what = "a duplicate id was returned"
+	case !perThreadIncreasing(per):
+		what = "one goroutine was handed an id not above the one it had received before"
+	}
+	for _, id := range all {
+		if t, nn, _ := fieldsOf(id); nn != node || t < rel {
+			what = fmt.Sprintf("id %d carries node %d / timestamp epoch+%d, the clock read epoch+%d before the calls", id, nn, t, rel)
+			break
+		}
+	}
+	if what != "" {
+		w.hardHit("HardNode.Generate", "concurrent-not-increasing", fmt.Sprintf("%d goroutines × %d calls of Generate on NewNode(%d, 0) under the real clock: %s", g, k, node, what), before)
+	}
+	return "ok"
 }
 
 // ---------------------------------------------------------------- deterministic concurrency classes
@@ -1288,6 +1392,9 @@ func fixedCases() []corr.Case {
 		// the package's own configuration path (not the hook): any epoch, node widths clamped to 8/9/10
 		mk("setup", "setup 1609430400000 10 0", "hard 1 0", "g 1700000000000 0", "setup 946684800000 8 1", "hard 255 0", "g 1700000000000 5", "state",
 			"setup 10413792000000 9 0", "hard 1 0", "g 10413792000005 0", "setup 0 11 0", "setup 5 0 1", "setup 5 255 0", "setup 5 256 0", "setup 5 9 2", "setup -9223372036855 10 0"),
+		// concurrent callers of the public entry points on the real clock (generator started ahead of the clock: every call
+		// takes the increment branch), and of HardNode / MonoNode Generate under the default clock
+		mk("real-clock-concurrent", "cfg 1609430400000 10 0", "gidpar 4102444800000000000 8 20000", "gidpar 0 8 5000", "hreal 5 8 20000", "mono 7 20000 8", "hreal 1024 2 2"),
 		mk("genid", "cfg 0 10 0", "gid 0 1 5000", "gid 0 0 5000", "gid 4102444800000000000 1 3000", "gid 1 2 5", "gid 9223372036854775807 1 3"),
 		mk("monocheck", "cfg 1609430400000 10 0", "monocheck 1 4194308096 4194308097 8388612096", "monocheck 1 4194308096 4194308098", "monocheck 1 8388612096 4194308096", "monocheck 1024"),
 		mk("malformed", "cfg 1 10 0", "g 1 0", "cfg 1 7 0", "cfg 1 8 2", "g 1 0", "hard 1", "hard 1 $last", "hard 1_0 0", "hard +1 0", "hard 1 0", "g 1 1000000", "g 1 -1",
@@ -1454,6 +1561,20 @@ func genSetup(r *rng.R) corr.Case {
 	return corr.Case{Tag: "setup-path", Lines: lines}
 }
 
+func genRealPar(r *rng.R) corr.Case {
+	nb := r.PickInt(8, 9, 10)
+	lines := []string{fmt.Sprintf("cfg %d %d %d", r.PickI64(ms2021, ms2000, 1500000000000), nb, r.Intn(2))}
+	switch r.Intn(3) {
+	case 0:
+		lines = append(lines, fmt.Sprintf("gidpar %d %d %d", r.PickI64(4102444800000000000, 0, time.Date(2024, 1, 1, 0, 0, 0, 0, time.UTC).UnixNano()), r.Range(2, 16), r.Range(1000, 20000)))
+	case 1:
+		lines = append(lines, fmt.Sprintf("hreal %d %d %d", r.Intn(1<<nb), r.Range(2, 16), r.Range(1000, 20000)))
+	default:
+		lines = append(lines, fmt.Sprintf("mono %d %d %d", r.Intn(1<<nb), r.Range(1000, 10000), r.Range(2, 16)))
+	}
+	return corr.Case{Tag: "real-clock-concurrent", Lines: lines}
+}
+
 func genGenID(r *rng.R) corr.Case {
 	cur := r.PickI64(0, time.Date(2024, 1, 1, 0, 0, 0, 0, time.UTC).UnixNano(), 1<<62, 4102444800000000000 /* 2100: ahead of the clock */)
 	return corr.Case{Tag: "genid-real-clock", Lines: []string{"cfg 0 10 0", fmt.Sprintf("gid %d %d %d", cur, r.Intn(2), r.Range(100, 5000))}}
@@ -1534,7 +1655,7 @@ func genStress(r *rng.R) corr.Case {
 }
 
 func genMalformed(r *rng.R) corr.Case {
-	toks := []string{"cfg", "hard", "g", "burst", "par", "state", "nano", "n", "nburst", "npar", "mono", "monocheck", "nheld", "hheld", "nstress", "hstress", "setup", "gid", "x", "$last", "0", "1", "-1", "8", "10", "11",
+	toks := []string{"cfg", "hard", "g", "burst", "par", "state", "nano", "n", "nburst", "npar", "mono", "monocheck", "nheld", "hheld", "nstress", "hstress", "setup", "gid", "gidpar", "hreal", "x", "$last", "0", "1", "-1", "8", "10", "11",
 		"4096", "99999999999999999999", "1e3", "0x10", "+3", "", "1_0", "9223372036854775807", "-9223372036854775808"}
 	lines := []string{"cfg 1609430400000 10 0", "hard 1 0", "nano 0"}
 	for i, n := 0, r.Range(3, 10); i < n; i++ {
@@ -1543,7 +1664,7 @@ func genMalformed(r *rng.R) corr.Case {
 		for j := 0; j < k; j++ {
 			f = append(f, toks[r.Intn(len(toks))])
 		}
-		if f[0] == "mono" || f[0] == "par" || f[0] == "burst" || f[0] == "nburst" || f[0] == "npar" || f[0] == "nstress" || f[0] == "hstress" {
+		if f[0] == "mono" || f[0] == "par" || f[0] == "burst" || f[0] == "nburst" || f[0] == "npar" || f[0] == "nstress" || f[0] == "hstress" || f[0] == "gidpar" || f[0] == "hreal" {
 			f[0] = "g" // keep the malformed stream cheap
 		}
 		lines = append(lines, strings.Join(f, " "))
@@ -1572,6 +1693,8 @@ func spec() corr.Spec {
 				return genSetup(r)
 			case i%40 == 9:
 				return genGenID(r)
+			case i%40 == 29, tier == "search" && i%10 == 7:
+				return genRealPar(r)
 			case tier == "search" && i%3 == 0, tier != "search" && i%12 == 5:
 				return genHeld(r)
 			case tier == "search" && i%10 == 1, tier == "thorough" && i%25 == 7:
@@ -1593,7 +1716,7 @@ func spec() corr.Spec {
 		NonTrivial: func(c corr.Case, r corr.Result) bool {
 			for _, l := range c.Lines {
 				f := strings.Fields(l)
-				if len(f) > 0 && (f[0] == "gid" || f[0] == "nheld" || f[0] == "hheld" || f[0] == "nstress" || f[0] == "hstress" || f[0] == "g" || f[0] == "burst" || f[0] == "par" || f[0] == "n" || f[0] == "nburst" || f[0] == "npar" || f[0] == "mono") {
+				if len(f) > 0 && (f[0] == "gidpar" || f[0] == "hreal" || f[0] == "gid" || f[0] == "nheld" || f[0] == "hheld" || f[0] == "nstress" || f[0] == "hstress" || f[0] == "g" || f[0] == "burst" || f[0] == "par" || f[0] == "n" || f[0] == "nburst" || f[0] == "npar" || f[0] == "mono") {
 					return true
 				}
 			}
@@ -1618,8 +1741,10 @@ func spec() corr.Spec {
 				return "C06:corr:NewNode"
 			case "setup":
 				return "C06:corr:Setup"
-			case "gid":
+			case "gid", "gidpar":
 				return "C06:corr:UnixNanoID.GenID"
+			case "hreal":
+				return "C06:corr:HardNode.Generate:concurrent"
 			case "hheld", "hstress":
 				return "C06:corr:HardNode.Generate:concurrent"
 			case "nheld", "nstress":
